@@ -121,37 +121,52 @@ theorem reportAll_append (s : Ups × Int) (a b : List (String × Int)) :
   | nil => rfl
   | cons m a ih => obtain ⟨id, v⟩ := m; simp [reportAll, ih]
 
+/-- what the registry's upstream map and composite are, for a deployment with runners `ids` that has received `ms` -/
+def tracked (o : Op) (s : List String × List (String × Int)) : Prop :=
+  (o.reg.ups, o.reg.wm) = Wm.reportAll (Wm.Ups.init s.1, Wm.zeroTime) s.2
+
 open Rxn.Wm in
-theorem step_tracks (o : Op) (e : OpEv) :
-    ((o.step e).1.reg.ups, (o.step e).1.reg.wm) = reportAll (o.reg.ups, o.reg.wm) (wmsgs [e]) ∧
-    (o.step e).1.maxBatch = o.maxBatch ∧
-    ∀ r ∈ (o.step e).2, r.told = (reportAll (o.reg.ups, o.reg.wm) (wmsgs [e])).2 := by
+theorem step_tracks (o : Op) (s : List String × List (String × Int)) (h : tracked o s) (e : OpEv) :
+    tracked (o.step e).1 (epochOf s [e]) ∧
+    ∀ r ∈ (o.step e).2, r.told = (reportAll (Ups.init (epochOf s [e]).1, zeroTime) (epochOf s [e]).2).2 := by
+  obtain ⟨ids, ms⟩ := s
+  unfold tracked at h ⊢
   cases e with
   | keyed k ts =>
-    have h := (add_ok o (.keyed k ts)).1
-    simp only [Op.step, Op.keyed, wmsgs, reportAll]
-    exact ⟨by rw [h.ups, h.wm], h.maxBatch, h.told⟩
-  | wmark s v =>
-    simp only [Op.step, Op.watermark, wmsgs, reportAll]
-    have h := (opFireLoop_ok (o.reg.ups.report s v).2 (o.reg.store.db.length + 1)
-      { o with reg := { o.reg with ups := (o.reg.ups.report s v).1, wm := (o.reg.ups.report s v).2 } }).1
-    exact ⟨by rw [h.ups, h.wm], h.maxBatch, h.told⟩
+    have hk := (add_ok o (.keyed k ts)).1
+    simp only [Op.step, Op.keyed, epochOf]
+    refine ⟨by rw [hk.ups, hk.wm]; exact h, ?_⟩
+    intro r hr
+    rw [hk.told r hr, ← h]
+  | wmark sd v =>
+    simp only [Op.step, Op.watermark, epochOf]
+    have hf := (opFireLoop_ok (o.reg.ups.report sd v).2 (o.reg.store.db.length + 1)
+      { o with reg := { o.reg with ups := (o.reg.ups.report sd v).1, wm := (o.reg.ups.report sd v).2 } }).1
+    have hrep : reportAll (Ups.init ids, zeroTime) (ms ++ [(sd, v)]) = o.reg.ups.report sd v := by
+      rw [reportAll_append, ← h]; rfl
+    refine ⟨by rw [hf.ups, hf.wm, hrep], ?_⟩
+    intro r hr
+    rw [hf.told r hr, hrep]
+  | redeploy st ids' =>
+    simp only [Op.step, Op.redeploy, epochOf]
+    exact ⟨rfl, by intro r hr; cases hr⟩
 
-open Rxn.Wm in
-theorem wmsgs_append (a b : List OpEv) : wmsgs (a ++ b) = wmsgs a ++ wmsgs b := by
-  induction a with
+theorem epochOf_append (s : List String × List (String × Int)) (a b : List OpEv) :
+    epochOf s (a ++ b) = epochOf (epochOf s a) b := by
+  induction a generalizing s with
   | nil => rfl
-  | cons e a ih => cases e <;> simp [wmsgs, ih]
+  | cons e a ih =>
+    obtain ⟨ids, ms⟩ := s
+    cases e <;> simp [epochOf, ih]
 
-open Rxn.Wm in
-theorem runState_tracks (evs : List OpEv) (o : Op) :
-    ((o.runState evs).reg.ups, (o.runState evs).reg.wm) = reportAll (o.reg.ups, o.reg.wm) (wmsgs evs) := by
-  induction evs generalizing o with
-  | nil => rfl
+theorem runState_tracks (evs : List OpEv) (o : Op) (s : List String × List (String × Int)) (h : tracked o s) :
+    tracked (o.runState evs) (epochOf s evs) := by
+  induction evs generalizing o s with
+  | nil => exact h
   | cons e es ih =>
     simp only [Op.runState]
-    rw [ih (o.step e).1, (step_tracks o e).1]
-    have : wmsgs (e :: es) = wmsgs [e] ++ wmsgs es := wmsgs_append [e] es
-    rw [this, reportAll_append]
+    have := ih (o.step e).1 (epochOf s [e]) (step_tracks o s h e).1
+    rw [← epochOf_append] at this
+    exact this
 
 end Rxn.Timers
